@@ -351,15 +351,15 @@ func init() {
 			}
 			w := &permWalk{c: c, recv: recvName, entryVar: map[string]string{}}
 			w.stmts(fd.Body.List, "always")
-			sb.WriteString(fmt.Sprintf("/-- %s.%s (%s) -/\ndef %s : HandlerFacts := ⟨%s, %s, [\n", t.dir, t.fn,
-				strings.TrimPrefix(c.Fset.Position(fd.Pos()).String(), c.Repo+"/"), t.lean, b2l(w.readsCtx), b2l(w.delegates)))
+			sb.WriteString(fmt.Sprintf("/-- %s/msg_server.go %s -/\ndef %s : HandlerFacts := ⟨%s, %s, [\n", t.dir, t.fn,
+				t.lean, b2l(w.readsCtx), b2l(w.delegates)))
 			for i, f := range w.facts {
 				sep := ","
 				if i == len(w.facts)-1 {
 					sep = ""
 				}
-				sb.WriteString(fmt.Sprintf("  ⟨%s, .%s, %s, %s⟩%s  -- %s\n", f.guard, f.cond, b2l(f.returnsErr), b2l(f.writeFirst), sep,
-					strings.TrimPrefix(f.src, c.Repo+"/")))
+				// (no line numbers in the output: the file must not change when unrelated code moves)
+				sb.WriteString(fmt.Sprintf("  ⟨%s, .%s, %s, %s⟩%s\n", f.guard, f.cond, b2l(f.returnsErr), b2l(f.writeFirst), sep))
 			}
 			sb.WriteString("]⟩\n\n")
 		}
